@@ -290,3 +290,196 @@ def check_operators(ctx, tag):
     ctx.coverage['operator_verdicts'] = stats
     ctx.coverage['evaluations'] += len(texts)
     return stats.get('PCAgree', 0)
+
+
+# ------------------------------------------------------------------ one access clause (single_clause)
+CL_HEADER = ('From Coq Require Import String ZArith NArith List.\nFrom GV.Model Require Import Ast.\nFrom GV.Model Require Import ValueParse QueryParse OpParse ClauseParse.\n'
+             'Import ListNotations.\n')
+
+
+def pv_lit_term(j):
+    """the literal of a clause (a PathAwareValue built from the parsed Value) as a ValueParse.lit term"""
+    t = j[0]
+    if t == 'PNull':
+        return 'VNull'
+    if t == 'PString':
+        return '(VStr %s)' % ct.cstr(ct.S(j[2]))
+    if t == 'PRegex':
+        return '(VRegex %s)' % ct.cstr(ct.S(j[2]))
+    if t == 'PBool':
+        return '(VBool %s)' % ct.cbool(j[2])
+    if t == 'PInt':
+        return '(VInt (%d)%%Z)' % j[2]
+    if t == 'PChar':
+        if j[2]['C'] >= 128:
+            raise ct.TranslateError('non-ASCII char')
+        return '(VChar (Ascii.ascii_of_N %d%%N))' % j[2]['C']
+    if t == 'PList':
+        return '(VList %s)' % ct.clist([pv_lit_term(x) for x in ct.L(j[2])])
+    if t == 'PMap':
+        return '(VMap %s)' % ct.clist(['(%s, %s)' % (ct.cstr(ct.S(kv[1])), pv_lit_term(kv[2])) for kv in ct.L(j[2][2])])
+    if t == 'PRangeInt':
+        return '(VRangeInt (%d)%%Z (%d)%%Z %d%%N)' % (j[2], j[3], j[4])
+    if t == 'PRangeChar':
+        if j[2]['C'] >= 128 or j[3]['C'] >= 128:
+            raise ct.TranslateError('non-ASCII char')
+        return '(VRangeChar (Ascii.ascii_of_N %d%%N) (Ascii.ascii_of_N %d%%N) %d%%N)' % (j[2]['C'], j[3]['C'], j[4])
+    raise ct.TranslateError('outside the model: %s' % t)
+
+
+def impl_clause_term(res):
+    if res[0] != 'Ok':
+        return {'Error': 'ICLError', 'Failure': 'ICLFailure'}.get(res[0], 'ICLOther')
+    ac = res[1][1]          # ['WClause', access_clause]
+    aq, cmp_, w, custom, neg = ac[1], ac[2], ac[3], ac[4], ac[6]
+    if has_filter(aq):
+        return 'ICLOther'
+    w = w['O'] if isinstance(w, dict) and 'O' in w else w
+    if w is None:
+        wt = 'IRNone'
+    elif w[0] == 'LValue':
+        try:
+            wt = '(IRLit %s)' % pv_lit_term(w[1])
+        except ct.TranslateError:
+            wt = 'IROther'
+    elif w[0] == 'LAccess':
+        wt = 'IROther' if has_filter(w[1]) else '(IRQuery %s)' % ct.access_query(w[1])
+    else:
+        wt = 'IROther'
+    return '(ICLOk %s %s O%s %s %s %s %d%%N)' % (ct.cbool(neg), ct.access_query(aq), cmp_[1], ct.cbool(cmp_[2]), wt, ct.ostr(custom), res[2])
+
+
+CL_QUERIES = ['a', 'a.b', 'a[0]', 'a.*', 'a[*].b', '%v', '%v.x', 'this', 'this.a', "a.'k k'", 'some a[*]', 'SOME a.b', 'a [0]', 'a\n  .b', "a['k']", 'a[ keys == "x" ]', 'a[ b == 1 ]', 'notes', 'not', 'a.exists', 'a.in',
+              'Resources.*.Properties.Tags[*].Key', 'é', 'a.é', '"q"', '', 'thisx', 'a.0', 'a[-1]']
+CL_NOTS = ['', '', '', 'not ', 'NOT ', '!', 'not\t', 'not  ', '! ', 'not', 'not\n', 'Not ', 'not not ', '!!', ' not ', '#c\n not ']
+CL_OPS_UN = ['exists', 'EXISTS', 'empty', '!empty', 'not empty', 'NOT EXISTS', '!exists', 'is_string', 'IS_LIST', 'not is_int', '!is_struct', 'is_null', 'is_float', 'is_bool', 'Exists', 'exist', 'isstring']
+CL_OPS_BIN = ['==', '!=', '>', '>=', '<', '<=', 'in', 'IN', 'not in', 'NOT IN', '!in', 'not  in', '=', '=>', '!', 'In', 'not\nin']
+CL_RHS = ['1', '-5', '"s"', "'s'", 'true', 'False', 'null', '/re/', '/a(/', 'r(1,5)', 'r[a,z]', '[1, 2]', '["a", \'b\']', '{a: 1}', '[1,', '"open', '1.5', '1e+5', 'b', 'b.c[0]', '%w', '%w.x', 'this.z', 'some b',
+          'count(b)', 'to_lower(%w)', 'count (b)', 'regex_replace(a, "x", "y")', 'nullable', 'trueValue', 'r', 'rate', 'x y', '', '<<m>>', ']', 'é', 'b[ c == 1 ]', 'json_parse(b)', '[b, c]', '{a: b}']
+CL_MSGS = ['', '', '', ' <<msg>>', '<<msg>>', ' << two words >>', '\n  <<a\nb>>', ' <<open', ' <<>>', ' << > >>', ' <<a>>>', ' << é >>', ' # c\n<<m>>', ' <m>', ' <<a>> <<b>>']
+CL_TAILS = ['', '\n', ' or', ' x', '\n}', ' # end', ' <<late>>']
+
+
+def gen_clause_text(rng):
+    lay = lambda: rng.choice(LAYOUTS)
+    sp = lambda: rng.choice([' ', ' ', ' ', '  ', '\t', '\n  ', ' # c\n ', ''])
+    t = lay() + rng.choice(CL_NOTS) + (rng.choice(CL_QUERIES) if rng.random() < 0.7 else gen_query_text(rng))
+    if rng.random() < 0.4:
+        t += sp() + rng.choice(CL_OPS_UN)
+    else:
+        t += sp() + rng.choice(CL_OPS_BIN) + sp()
+        r = rng.random()
+        if r < 0.55:
+            t += rng.choice(CL_RHS)
+        elif r < 0.8:
+            from . import vparse
+            t += vparse.gen_value_text(rng, 1, broken=rng.choice([0.0, 0.0, 0.3]))
+        else:
+            t += gen_query_text(rng)
+    t += rng.choice(CL_MSGS) + rng.choice(CL_TAILS)
+    return t
+
+
+def clause_corpus(seed, n):
+    rng = random.Random(seed * 5003 + 14)
+    texts = []
+    for q in CL_QUERIES[:12]:
+        for nt in ('', 'not ', '!', 'NOT '):
+            for op in CL_OPS_UN[:8]:
+                texts.append(nt + q + ' ' + op)
+                texts.append(nt + q + ' ' + op + ' <<m>>')
+            for op in CL_OPS_BIN[:11]:
+                texts.append(nt + q + ' ' + op + ' 1')
+                texts.append(nt + q + op + '"s" <<m>>')
+    for rhs in CL_RHS:
+        for op in ('==', 'in', 'not in', '>='):
+            texts += ['a %s %s' % (op, rhs), 'a %s %s <<m>>' % (op, rhs), 'a %s%s' % (op, rhs), 'a %s\n  %s\n' % (op, rhs), 'not a %s # c\n %s' % (op, rhs)]
+    for m in CL_MSGS:
+        texts += ['a exists' + m, 'a == 1' + m, 'a == b' + m, 'a == "s"' + m, 'a == [1]' + m]
+    while len(texts) < n:
+        t = gen_clause_text(rng)
+        texts.append(t)
+        if rng.random() < 0.3:
+            texts.append(mutate(t, rng))
+    seen, out = set(), []
+    for t in texts:
+        if t not in seen:
+            seen.add(t); out.append(t)
+    return out
+
+
+def run_clauses(texts, wd, tag='cparse'):
+    """-> list of (text, verdict, impl result); verdict in PLAgree | PLAgreeReject | PLNotModelled | PLDisagree | crash"""
+    from . import vparse
+    res = impl.run_ops_parallel([{'op': 'pclause', 'text': t} for t in texts], wd, tag + '.pl')
+    cands = sorted(set().union(*[vparse.regex_candidates(t) for t in texts])) if texts else []
+    cand_txt = []
+    for c in cands:
+        try:
+            cand_txt.append(c.decode('utf-8'))
+        except UnicodeDecodeError:
+            pass
+    rres = impl.run_ops_parallel([{'op': 'regex', 're': c, 'text': ''} for c in cand_txt], wd, tag + '.re') if cand_txt else []
+    valid = {}
+    for c, r in zip(cand_txt, rres):
+        rr = r.get('res')
+        valid[c] = bool(rr) and rr[0] == 'Ok'
+    cases, out = [], [None] * len(texts)
+    for i, (t, r) in enumerate(zip(texts, res)):
+        if 'res' not in r:
+            out[i] = (t, 'crash', r)
+            continue
+        mine = [c for c in cand_txt if c.encode('utf-8') in vparse.regex_candidates(t)] if '/' in t else []
+        table = ct.clist(['(%s, %s)' % (ct.cstr(c), ct.cbool(valid[c])) for c in mine])
+        rv = '(fun s => match assoc s %s with Some b => b | None => false end)' % table
+        try:
+            it = impl_clause_term(r['res'])
+        except (ct.TranslateError, KeyError, IndexError, TypeError):
+            it = 'ICLOther'
+        cases.append((i, '', 'clause_obs %s %s %s' % (rv, ct.cstr(t), it)))
+        out[i] = (t, None, r['res'])
+    verdicts, errors = model.eval_cases(cases, wd, tag, header=CL_HEADER, per_file=150)
+    if errors:
+        raise ToolingError('model evaluation failed: %r' % (errors[:1],))
+    for i, _, _ in cases:
+        out[i] = (out[i][0], verdicts.get(i, 'NoModelOutput'), out[i][2])
+    return out
+
+
+def check_clauses(ctx, tag, n):
+    """one access clause: Model/ClauseParse.v against parser.rs single_clause through the hook `pclause` (negation flag, query, operator,
+    right-hand side literal or query, custom message, stop offset, nom error class), and on the implementation alone: the spellings
+    of a negation in front of one clause give one clause with the flag set"""
+    texts = clause_corpus(ctx.seed, n)
+    out = run_clauses(texts, ctx.wd, tag)
+    stats = {}
+    for t, v, r in out:
+        stats[v] = stats.get(v, 0) + 1
+        if v in ('PLAgree', 'PLAgreeReject', 'PLNotModelled'):
+            continue
+        ctx.failing('clause %r: single_clause answers %s, the model of the clause grammar says otherwise (%s)' % (t[:80], json.dumps(r)[:200], v),
+                    {'class': 'clause-grammar-correspondence', 'text': t, 'impl': r, 'verdict': v}, found=False)
+    bodies = ['a exists', 'a.b[0] == 1', 'a in [1, 2]', 'a !empty', '%v.x >= 2 <<m>>', 'a == b.c', "a.'k' is_string", 'some a[*] != "s"', 'this.a not in ["x"]', 'a not exists']
+    forms = ['not ', 'NOT ', 'not\t', 'not   ', '!', '  not ', '\n!', '# c\nNOT ']
+    ops = [{'op': 'pclause', 'text': f + b} for b in bodies for f in [''] + forms]
+    res = impl.run_ops(ops, ctx.wd, tag + '.neg')
+    k = 0
+    def strip(rr):
+        ac = json.loads(json.dumps(rr[1][1]))
+        neg = ac[6]
+        ac[5] = None; ac[6] = None
+        return neg, json.dumps(ac, sort_keys=True)
+    for b in bodies:
+        base = res[k].get('res'); k += 1
+        if not base or base[0] != 'Ok' or strip(base)[0] is not False:
+            ctx.failing('the clause %r is not read as an un-negated clause: %s' % (b, json.dumps(base)[:160]), {'class': 'clause-negation', 'text': b}, found=True)
+            k += len(forms)
+            continue
+        for f in forms:
+            rr = res[k].get('res'); k += 1
+            if not rr or rr[0] != 'Ok' or strip(rr)[0] is not True or strip(rr)[1] != strip(base)[1]:
+                ctx.failing('%r in front of the clause %r: read as %s' % (f, b, json.dumps(rr)[:200]), {'class': 'clause-negation', 'text': f + b, 'plain': b}, found=True)
+    ctx.coverage['clause_texts'] = len(texts)
+    ctx.coverage['clause_verdicts'] = stats
+    ctx.coverage['evaluations'] += len(texts) + len(ops)
+    return stats.get('PLAgree', 0)
